@@ -89,18 +89,12 @@ def matchTest (m : Mode) (a : Arr) (pk : Kind) (t : Test) (i : Nat) : Bool :=
   | .name u l => kd a i == pk && uriOf a i == u && nameOf a i == l
   | .nsAny u => kd a i == pk && uriOf a i == u
 
-/-- Finding F01i.  `iter_children_or_self` yields the root element for the dummy document
-*without* moving `context.item` (xpath_context.py:420-422).  An abbreviated step (`x`, `*`,
-`node()`) uses the yielded value and works; an explicit `child::T` step runs the test's own
-`select(context)` on `context.item`, which still is the dummy document, and every test fails. -/
-def explicitChildAtDummy (m : Mode) (ax : Axis) (abbr : Bool) (n : Nat) : Bool :=
-  !abbr && ax == .child && isDummyDoc m n
-
-/-- one step: the axis iterator, then the test applied to each yielded item
-(`for _ in context.iter_xxx(): yield from self[0].select(context)` with `context.axis` set) -/
-def evalStep (m : Mode) (a : Arr) (ax : Axis) (t : Test) (abbr : Bool) (n : Nat) : List Nat :=
-  if explicitChildAtDummy m ax abbr n then []
-  else (iterAxis m a ax n).filter (matchTest m a (principal ax) t)
+/-- one step: the axis method iterates its nodes and applies the test to each of them
+(`for _ in context.iter_xxx(): yield from self[0].select(context)` with `context.axis` set, so that the
+test selects the context item itself).  `abbr` only records the spelling (`x` / `child::x`, `@k` /
+`attribute::k`): since fix F01i both spellings select the same nodes. -/
+def evalStep (m : Mode) (a : Arr) (ax : Axis) (t : Test) (_abbr : Bool) (n : Nat) : List Nat :=
+  (iterAxis m a ax n).filter (matchTest m a (principal ax) t)
 
 /-! ### inner focus -/
 
@@ -280,7 +274,7 @@ def eval (m : Mode) (a : Arr) : Expr → Focus → Val
     | some b => .bool (!b)
     | none => .err
 
-/-! ### typing of the fragment and the trigger predicate of the known findings -/
+/-! ### typing of the fragment -/
 
 inductive Ty where
   | path | num | bool | dec
@@ -326,70 +320,8 @@ def ty : Expr → Option Ty
     | some _ => some .bool
     | none => none
 
-/-- Trigger predicates of the known findings, per step:
-  * F01b: the `following` axis applied to an attribute or namespace context node
-  * F01c: the `attribute` axis applied to an attribute context node
-  * F01i: an explicit `child::` step applied to the dummy document (below) -/
-def okF01b (a : Arr) (ax : Axis) (n : Nat) : Bool :=
-  match ax with
-  | .following => !isAN a n
-  | _ => true
-
-def okF01c (a : Arr) (ax : Axis) (n : Nat) : Bool :=
-  match ax with
-  | .attribute => !(kd a n == .attr)
-  | _ => true
-
-/-- F01i: an explicit `child::` step applied to the dummy document -/
-def okF01i (m : Mode) (ax : Axis) (abbr : Bool) (n : Nat) : Bool := !explicitChildAtDummy m ax abbr n
-
-/-! The *exact* step-level triggers (`stepSafe_exact` in `EPV/Lemmas/AxesPath.lean`: the step of the
-model differs from the specified step **iff** one of them holds):
-  * F01b: `following::t` from an attribute / namespace node `n` **and** some non-attribute,
-    non-namespace node after `n` passes the test `t` (the specified result is not empty)
-  * F01c: `attribute::t` from an attribute node **and** that attribute passes `t`
-  * F01i: explicit `child::t` from the dummy document **and** the root element passes `t` -/
-def trigF01b (m : Mode) (a : Arr) (ax : Axis) (t : Test) (n : Nat) : Bool :=
-  ax == .following && isAN a n &&
-    (List.range a.length).any fun i => decide (n < i) && !isAN a i && matchTest m a .elem t i
-
-def trigF01c (m : Mode) (a : Arr) (ax : Axis) (t : Test) (n : Nat) : Bool :=
-  ax == .attribute && kd a n == .attr && matchTest m a .attr t n
-
-def trigF01i (m : Mode) (a : Arr) (ax : Axis) (t : Test) (abbr : Bool) (n : Nat) : Bool :=
-  explicitChildAtDummy m ax abbr n && matchTest m a .elem t (rootIdx m)
-
-def stepSafe (m : Mode) (a : Arr) (ax : Axis) (t : Test) (abbr : Bool) (n : Nat) : Bool :=
-  !trigF01b m a ax t n && !trigF01c m a ax t n && !trigF01i m a ax t abbr n
-
 def nodesOf : Val → List Nat
   | .nodes l => l
   | _ => []
-
-/-- `safeG ok e f`: every step evaluated while evaluating `e` at `f` satisfies `ok axis context`.
-Computed along the evaluation (contexts come from the model's own intermediate results). -/
-def safeG (ok : Axis → Test → Bool → Nat → Bool) (m : Mode) (a : Arr) : Expr → Focus → Bool
-  | .step ax t ab, f => ok ax t ab f.item
-  | .pred e p, f =>
-    safeG ok m a e f && (predFocus e (nodesOf (eval m a e f))).all (safeG ok m a p)
-  | .slash l r, f =>
-    safeG ok m a l f && (selectWithFocus l (nodesOf (eval m a l f))).all (safeG ok m a r)
-  | .dslash l r, f =>
-    safeG ok m a l f && (selectWithFocus l (nodesOf (eval m a l f))).all fun f' =>
-      (iterDescendants m a true f'.item).all fun d => safeG ok m a r { f' with item := d }
-  | .root e, f => safeG ok m a e { f with item := 0 }
-  | .droot e, f => (iterDescendants m a true 0).all fun d => safeG ok m a e { f with item := d }
-  | .paren e, f => safeG ok m a e f
-  | .union l r, f => safeG ok m a l f && safeG ok m a r f
-  | .count e, f => safeG ok m a e f
-  | .cmp _ l r, f => safeG ok m a l f && safeG ok m a r f
-  | .and l r, f => safeG ok m a l f && safeG ok m a r f
-  | .or l r, f => safeG ok m a l f && safeG ok m a r f
-  | .not e, f => safeG ok m a e f
-  | _, _ => true
-
-/-- the hypothesis of `EPV.C01.path_eq_spec_partial`: no finding trigger is hit; the driver prints
-`inK` = which of the two triggers are hit -/
-def safe (m : Mode) (a : Arr) (e : Expr) (f : Focus) : Bool := safeG (stepSafe m a) m a e f
 
 end EPV.XP
